@@ -7,7 +7,7 @@
    are FALSE of the faithful models (the code violates the property): their refutations are
    proved below, each on a witness reproduced on the real code (corpus/C17), together with the
    statements that do hold. *)
-From Aelys Require Import Base.Tactics Model.AirLower Model.Mono Proofs.AirLowerProofs Proofs.AirLowerSweep Proofs.MonoProofs.
+From Aelys Require Import Base.Tactics Model.AirLower Model.Mono Proofs.AirLowerProofs Proofs.AirLowerTargets Proofs.AirLowerSweep Proofs.MonoProofs.
 Local Open Scope N_scope.
 
 (* ---------------------------------------------------------------- lowering: refutations *)
@@ -47,11 +47,24 @@ Theorem C17_lower_entry_and_unique_ids :
 Proof. exact lower_entry_and_unique_ids. Qed.
 
 (* Guarded statement about branch targets.  The guard the design expected ("the function ends in
-   a statement") is NOT sufficient (C17_pending_overwritten_refuted); the guard that works is
-   semantic and decidable: [known_class f = false], i.e. no branch of f goes to a block id that was
-   still pending at the end of the function (f_open) or was overwritten while pending (f_dropped).
-   Unbounded part: under "every dangling target is such a lost id", not being in the known class
-   gives full well-formedness. *)
+   a statement") is NOT sufficient (C17_pending_overwritten_refuted).  What holds, for EVERY program
+   (no size bound) whose break/continue statements sit inside a loop of the same function
+   (breaks_scoped; the bytecode compiler rejects the others with E0207):
+   every dangling branch target is a pending block id that was lost -- still pending when the
+   function ended (f_open) or overwritten by a later fixup_block_id_noop (f_dropped) ... *)
+Theorem C17_lower_dangling_only_lost :
+  forall p, breaks_scoped p = true -> forall f, In f (lower p) -> dangling_all_lost f = true.
+Proof. exact lower_dangling_only_lost. Qed.
+
+(* ... hence every function outside these two known classes is fully well formed: entry block,
+   unique ids, every branch targets an existing block of the same function *)
+Theorem C17_lower_wf_outside_known_classes :
+  forall p, breaks_scoped p = true ->
+  forall f, In f (lower p) -> known_class f = false -> wf_fn f = true.
+Proof. exact lower_wf_outside_known_classes. Qed.
+
+(* the two classes are exactly "a lost pending id is branched to" (decidable on the model's ghost
+   fields); glue used above, for any function record *)
 Theorem C17_lower_wf_when_nothing_lost :
   forall f, has_entry (f_blocks f) = true -> unique_ids (f_blocks f) = true ->
             dangling_all_lost f = true -> known_class f = false -> wf_fn f = true.
@@ -60,7 +73,18 @@ Proof.
   unfold fn_good. rewrite He, Hu, Hl. reflexivity.
 Qed.
 
-(* Bounded part (complete sweep, the bound is the family S2 x tails = 367 521 one-function
+(* without the scoping guard the statement is false: `while c { fn g() { break } }` makes g jump
+   to a block id of the enclosing function (lower_function does not save loop_stack) *)
+Theorem C17_unscoped_break_refuted :
+  exists p f, In f (lower p) /\ breaks_scoped p = false /\ dangling_all_lost f = false.
+Proof.
+  exists w_unscoped, (mkfn [(0, TGoto 2)] None []).
+  destruct unscoped_break_witness as (H1 & H2 & H3). rewrite H1.
+  split; [left; reflexivity|split; assumption].
+Qed.
+
+(* Independent cross-check by computation (implied by the two theorems above; kept because it
+   exercises the model itself): complete sweep, the bound is the family S2 x tails = 367 521 one-function
    programs: one statement of nesting depth <= 2 over {call, return, break, continue, if, if/else,
    while, for, for-each, nested fn, closure, and-condition}, blocks of <= 2 statements, followed by
    nothing / a call / a return): with break/continue inside a loop of the same function, every
